@@ -9,7 +9,11 @@
   monitor (which found and led to the repair of eight defects, see known_findings.json).
   * RK23 and RK4 (`Proofs/CtlRkField.lean`): `rk23Adjust_lands`, `rk23Loop_success_at_xend`, `rk4Loop_success_at_xend` —
     the landing step ends at xend and Success is reported only there, for every right-hand side and observer.
+  * Radau (`Proofs/RadauLemmas.lean`, control model tied by the X-radau trace co-simulation): `RadauCtl.pass_land`,
+    `RadauCtl.run_success_at_xend`, `RadauCtl.start_land` — for every outcome of the factorisations, the Newton iteration, the
+    error estimates and the callback, the landing flag is only raised on a step ending at xend and Success is reported only there.
 -/
+import IvpModel.Proofs.RadauLemmas
 import IvpModel.Proofs.CtlField
 import IvpModel.Proofs.CtlRkField
 import IvpModel.Props.C02
